@@ -15,7 +15,9 @@ from driver import run_batch, run_one
 from wire import to_wire, from_wire, canon, exc_class
 from props.common import scale, depth_of, schema_tags, load_corpus
 
-THEOREMS = ["c15_encode_eq_spec", "c15_core_is_spec", "c15_bytes_strings", "c15_read_back"]
+THEOREMS = ["c15_encode_eq_spec", "c15_core_is_spec", "c15_bytes_strings", "c15_read_back", "c15_machine_value",
+            "c15_machine_json_writer", "c15_machine_emits_spec", "c15_machine_counterexample_empty_list",
+            "c15_machine_counterexample_zero_fields", "c15_machine_counterexample_depth3"]
 TARGETS = ["Properties.C15"]
 
 
@@ -374,6 +376,24 @@ DEFAULT_FIELDS = [
 ]
 
 
+def empty_list_family(run, tier, seed):
+    """json_writer with NO records: nothing is written and nothing is raised (finding F33 on the unchanged tree:
+    'Internal Parser Exception' because the start symbol is still folded on the parser stack at flush)"""
+    for i in range(scale(tier, 12)):
+        g = gen.Gen(seed * 15000031 + i, logical=False, bytes_defaults=False, hints=False, tuple_seq=False, big=False,
+                    recursion=False, zero_field=False)
+        try:
+            s, ctx = g.top_schema()
+        except Exception:
+            continue
+        it = impl_json(s, [])
+        case = {"schema": s, "values": {"l": []}, "tags": ["empty-record-list"]}
+        run.count(case, True, ["empty-record-list"])
+        if "text" not in it or it["text"] != "":
+            run.fail(dict(case, impl=it, tags=case["tags"] + mtag(agrees_enc(s, [], True, it))),
+                     "json_writer with an empty record list: raised %s / wrote %r" % (it.get("err"), it.get("text", "")[:40]), kind="oracle")
+
+
 def defaults_family(run, tier, seed):
     """a field absent from the JSON text takes its schema default — for every kind of field type (containers,
     named types by reference, unions), in the first and in later records of one text, and the caller's schema is
@@ -557,6 +577,7 @@ def run(tier, seed):
     corpus_cases(run)
     machine_correspondence(run, tier, seed)
     defaults_family(run, tier, seed)
+    empty_list_family(run, tier, seed)
     res = run_batch(dec_reqs) if dec_reqs else []
     for (case, back), r in zip(dec_meta, res):
         if "ok" not in r or by_value(canon(r["ok"])) != by_value(canon(back)):
